@@ -67,7 +67,32 @@ def read_series_table(fe):
         elif isinstance(st, ast.Return) and isinstance(st.value, ast.Dict):
             table = st.value
     if table is None:
-        raise AnchorMissing("%s: derive_series no longer returns a dict literal" % REL)
+        # the same table built incrementally: NAME = [(key, expr), ...]; for k, e in NAME: D[k] = taylor_series_near_zero(u, e)
+        loop = None
+        for st in fn.body:
+            if isinstance(st, ast.For) and isinstance(st.target, ast.Tuple) and len(st.target.elts) == 2 and all(isinstance(e, ast.Name) for e in st.target.elts) \
+                    and isinstance(st.iter, ast.Name) and st.iter.id in aliases and len(st.body) == 1 and isinstance(st.body[0], ast.Assign) \
+                    and isinstance(st.body[0].targets[0], ast.Subscript) and isinstance(st.body[0].value, ast.Call) \
+                    and ast.unparse(st.body[0].value.func) == "taylor_series_near_zero" and not st.orelse:
+                loop = st
+        defs = elements(aliases[loop.iter.id]) if loop is not None else None
+        if loop is not None and defs is not None and all(isinstance(d, ast.Tuple) and len(d.elts) == 2 for d in defs):
+            kname, ename = (e.id for e in loop.target.elts)
+            call = loop.body[0].value
+            keyed = ast.unparse(loop.body[0].targets[0].slice) == kname
+            if keyed and len(call.args) >= 2 and isinstance(call.args[1], ast.Name) and call.args[1].id == ename:
+                keys, vals = [], []
+                for d in defs:
+                    c2 = ast.parse(ast.unparse(call), mode="eval").body
+                    c2.args[1] = d.elts[1]
+                    ast.copy_location(c2, d)
+                    c2.lineno = d.lineno
+                    keys.append(d.elts[0])
+                    vals.append(c2)
+                table = ast.Dict(keys=keys, values=vals)
+                aliases.pop(loop.iter.id, None)
+    if table is None:
+        raise AnchorMissing("%s: derive_series no longer returns a dict literal (or a literal list of (key, formula) pairs filled into a dict by one loop)" % REL)
     aliases.pop("x", None)
     aliases.pop("u", None)
     entries = []
